@@ -51,7 +51,7 @@ func mkCDImage(root string, im cdImg, seed byte) {
 func TestC17(t *testing.T) {
 	r := NewReporter(t)
 	defer r.Done()
-	r.Rule("7 raw sector sizes x {ISO9660, PLAYSTATION, no} signature x image sizes around the 2 MiB / 848 MiB detection window x (start,count) incl. count 0, start != count, ranges crossing EOF and start sectors at byte offsets around 2^32 and up to 2^32-1 sectors, incl. a sparse image of 4 GiB + 3 MiB; encrypted images whose plaintext is a CD image (sector size recognised through the decrypting view); every sector of each 2 MiB image one by one in a single session and every (start,count) around its last sectors; all histories of <= 2 (thorough 4) requests over a 10-request alphabet between the open and a sector read; two-image histories on one connection and CLOSEFILE; transfer buffer sizes {1,3,512,1000,1500,2047,2048,2049,4096,unpooled}; distinct by (image(s), request sequence)")
+	r.Rule("7 raw sector sizes x {ISO9660, PLAYSTATION, no} signature x image sizes around the 2 MiB / 848 MiB detection window x (start,count) incl. count 0, start != count, ranges crossing EOF and start sectors at byte offsets around 2^32 and up to 2^32-1 sectors, incl. a sparse image of 4 GiB + 3 MiB; encrypted images whose plaintext is a CD image (sector size recognised through the decrypting view); every sector of each 2 MiB image one by one in a single session and every (start,count) around its last sectors; all histories of <= 2 (thorough 4) requests over a 10-request alphabet between the open and a sector read; two-image histories on one connection and CLOSEFILE; sector reads of two connections under the controlled scheduler (all schedules with <= 1 / thorough 2 preemptions); transfer buffer sizes {1,3,512,1000,1500,2047,2048,2049,4096,unpooled}; distinct by (image(s), request sequence)")
 	w := newWorld(t, "srv/root")
 	defer w.Cleanup()
 	sizes := []int64{0x200000 - 1, 0x200000, 3 << 20, 0x35000000, 0x35000000 + 1}
@@ -288,5 +288,30 @@ func TestC17(t *testing.T) {
 			}
 		}
 		os.Remove(filepath.Join(w.Root, big.name))
+	}
+	// sector reads of two connections overlapping in time (images of different raw sector size, multi-sector reads):
+	// every schedule with <= 1 (thorough 2) preemptions over connection and leaf filesystem operations - each client
+	// gets the stream it gets when alone
+	{
+		mkCDImage(w.Root, cdImg{name: "two/a2352.bin", sector: 2352, sig: "psx", size: 0x200000}, 21)
+		mkCDImage(w.Root, cdImg{name: "two/b2448.bin", sector: 2448, sig: "iso", size: 0x200000}, 22)
+		mkCDImage(w.Root, cdImg{name: "two/c2048.bin", sector: 2048, sig: "iso", size: 0x200000}, 23)
+		bound := 1
+		if r.Thorough() {
+			bound = 2
+		}
+		for _, sc := range []c12Scenario{
+			{name: "cd-reads-2352-vs-2448", clients: [][]Req{
+				{mkReq(opOpenFile, "/two/a2352.bin"), cdReq(1, 3), cdReq(16, 2)},
+				{mkReq(opOpenFile, "/two/b2448.bin"), cdReq(2, 3), cdReq(0, 1)}}},
+			{name: "cd-reads-2048-vs-2352-and-ordinary", clients: [][]Req{
+				{mkReq(opOpenFile, "/two/c2048.bin"), cdReq(5, 4)},
+				{mkReq(opOpenFile, "/two/a2352.bin"), rdcReq(100, 5000), cdReq(7, 2)}}},
+		} {
+			if !c12Explore(t, r, w.Root, sc, bound, "C17") {
+				return
+			}
+		}
+		os.RemoveAll(filepath.Join(w.Root, "two"))
 	}
 }
